@@ -260,7 +260,9 @@ pub fn apply_params<P: Par>(mut p: P, pos: usize, rc: &Rc) -> P {
 // instrumented closures
 
 pub fn mk_map<T: Elem>(st: Stage, si: u8) -> impl Fn(T) -> E + Clone + Send + Sync {
+    let tok = obs::Tok;
     move |x: T| {
+        let _tok = &tok;
         let v = x.v();
         // the consumed input is dropped first: no user code (Drop) runs after the call has been recorded
         drop(x);
@@ -269,7 +271,9 @@ pub fn mk_map<T: Elem>(st: Stage, si: u8) -> impl Fn(T) -> E + Clone + Send + Sy
     }
 }
 pub fn mk_filter<T: Elem>(st: Stage, si: u8) -> impl Fn(&T) -> bool + Clone + Send + Sync {
+    let tok = obs::Tok;
     move |x: &T| {
+        let _tok = &tok;
         let v = x.v();
         let keep = mask_hit(v.val, st.mask);
         let _g = obs::enter(Kind::Stage, Site::Stage(si), si, keep as u32, v.uid);
@@ -277,7 +281,9 @@ pub fn mk_filter<T: Elem>(st: Stage, si: u8) -> impl Fn(&T) -> bool + Clone + Se
     }
 }
 fn mk_flat<T: Elem>(st: Stage, si: u8) -> impl Fn(T) -> Vec<E> + Clone + Send + Sync {
+    let tok = obs::Tok;
     move |x: T| {
+        let _tok = &tok;
         let v = x.v();
         drop(x);
         let n = flat_n(v, st.k, st.fan);
@@ -286,7 +292,9 @@ fn mk_flat<T: Elem>(st: Stage, si: u8) -> impl Fn(T) -> Vec<E> + Clone + Send + 
     }
 }
 fn mk_filter_map<T: Elem>(st: Stage, si: u8) -> impl Fn(T) -> Option<E> + Clone + Send + Sync {
+    let tok = obs::Tok;
     move |x: T| {
+        let _tok = &tok;
         let v = x.v();
         drop(x);
         let keep = mask_hit(v.val, st.mask);
@@ -295,7 +303,9 @@ fn mk_filter_map<T: Elem>(st: Stage, si: u8) -> impl Fn(T) -> Option<E> + Clone 
     }
 }
 pub fn mk_pred<T: Elem>(mask: u16) -> impl Fn(&T) -> bool + Clone + Send + Sync {
+    let tok = obs::Tok;
     move |x: &T| {
+        let _tok = &tok;
         let v = x.v();
         let hit = mask_hit(v.val, mask);
         let _g = obs::enter(Kind::Pred, Site::Pred, 0, hit as u32, v.uid);
@@ -303,7 +313,9 @@ pub fn mk_pred<T: Elem>(mask: u16) -> impl Fn(&T) -> bool + Clone + Send + Sync 
     }
 }
 fn mk_red<T: Elem>(op: RedOp) -> impl Fn(T, T) -> T + Clone + Send + Sync {
+    let tok = obs::Tok;
     move |a: T, b: T| {
+        let _tok = &tok;
         let _g = obs::enter(Kind::Red, Site::Red, 0, 0, a.v().uid);
         T::combine(op, a, b)
     }
